@@ -7,7 +7,7 @@ from rules import tf, simdsign
 
 def run(ctx):
     fx = ctx.facts("default")
-    fixtures.run(ctx, ['tf', 'simdsign', 'lanes'])
+    fixtures.run(ctx, ['tf', 'simdsign', 'lanes', 'padmask'])
     tf.run(ctx, fx)
     ctx.floor("R-TF.tf_fns", 100)
     ctx.floor("R-TF.sites", 100)
@@ -17,6 +17,9 @@ def run(ctx):
     ctx.floor("R-SIGNED.kernels", 8)
     simdsign.byte_kernels(ctx, fx)
     ctx.floor("R-LANES.functions", 60)
+    # kernels over a zero-padded scratch array restrict the movemask to the lanes that were filled
+    simdsign.padded_mask(ctx, fx)
+    ctx.floor("R-PADMASK.sites", 2)
     return dict(
         level_note="decides the dispatch clause of C14 (feature-gated kernels are entered only under an implying "
                    "runtime check; a portable path exists) and one necessary condition of the compare clause (no unbiased "
